@@ -516,18 +516,89 @@ class StmtMixin:
             return None, None
         ids = self.loop_ordinals(fn)
         k = ids.get(id(node))
+        # a loop contract may be keyed by the loop header's text (robust against loops added or removed elsewhere in the
+        # function) or by the loop's preorder ordinal
+        hdr = getattr(fn, "_loop_headers", {}).get(id(node))
+        if hdr is not None and hdr in fn.loops:
+            return fn.loops[hdr], k
         return fn.loops.get(k), k
+
+    @staticmethod
+    def loop_header(n):
+        if isinstance(n, ast.While):
+            return "while " + ast.unparse(n.test)
+        if isinstance(n, ast.For):
+            return f"for {ast.unparse(n.target)} in {ast.unparse(n.iter)}"
+        g = n.generators[0]
+        return f"for {ast.unparse(g.target)} in {ast.unparse(g.iter)}"
 
     def loop_ordinals(self, fn):
         if getattr(fn, "_loop_ids", None) is None:
-            ids, k = {}, 0
+            ids, hdrs, k = {}, {}, 0
             root = fn.extracted().node if fn.mod else fn.node
             for n in _preorder(root):
                 if isinstance(n, (ast.For, ast.While, ast.ListComp, ast.GeneratorExp, ast.SetComp, ast.DictComp)):
                     ids[id(n)] = k
+                    hdrs[id(n)] = self.loop_header(n)
                     k += 1
             fn._loop_ids = ids
+            fn._loop_headers = hdrs
+            self._reanchor_loops(fn, ids, hdrs)
+            missing = [key for key in fn.loops if isinstance(key, str) and key not in hdrs.values()]
+            if missing:
+                raise Unsupported(f"loop anchor not found in {getattr(fn, 'qual', fn.fqn)}: {missing[0]!r} (the code changed shape; "
+                                  "the loop contract must be re-anchored)")
         return fn._loop_ids
+
+    _recorded_loops = None
+
+    def _reanchor_loops(self, fn, ids, hdrs):
+        """Ordinal-keyed loop contracts follow their loop: contracts/loop_headers.json records, for the tree the contracts
+        were written against, the header text of every loop of every function under contract.  When the loop that now has
+        ordinal k carries a different header, the contract moves to the loop that carries the recorded header (the j-th
+        one if the header occurs several times); if there is none the target is unsupported (re-anchor), never silently
+        checked against the wrong loop."""
+        import json
+        import os
+        path = os.path.join(os.path.dirname(os.path.dirname(os.path.abspath(__file__))), "contracts", "loop_headers.json")
+        cur = [hdrs[i] for i, _k in sorted(ids.items(), key=lambda kv: kv[1])]
+        rec_path = os.environ.get("PYVC_RECORD_LOOPS")
+        if rec_path and fn.loops and getattr(fn, "fqn", None):
+            try:
+                data = json.load(open(rec_path))
+            except Exception:  # noqa: BLE001
+                data = {}
+            data[fn.fqn] = cur
+            json.dump(data, open(rec_path, "w"), indent=1, sort_keys=True)
+            return
+        if StmtMixin._recorded_loops is None:
+            try:
+                StmtMixin._recorded_loops = json.load(open(path))
+            except Exception:  # noqa: BLE001
+                StmtMixin._recorded_loops = {}
+        rec = StmtMixin._recorded_loops.get(getattr(fn, "fqn", None))
+        if not rec or not any(isinstance(k, int) for k in fn.loops):
+            return
+        moved = {}
+        for k, spec in list(fn.loops.items()):
+            if not isinstance(k, int) or k >= len(rec):
+                continue
+            h = rec[k]
+            if k < len(cur) and cur[k] == h and rec[:k].count(h) == cur[:k].count(h):
+                continue
+            j = rec[:k].count(h)
+            where = [i for i, x in enumerate(cur) if x == h]
+            if j >= len(where):
+                raise Unsupported(f"loop anchor not found in {fn.fqn}: {h!r} (ordinal {k} on the recorded tree; the code changed "
+                                  "shape, the loop contract must be re-anchored)")
+            moved[k] = where[j]
+        if moved:
+            new = {k: v for k, v in fn.loops.items() if k not in moved}
+            for k, nk in moved.items():
+                if nk in new:
+                    raise Unsupported(f"loop anchors of {fn.fqn} collide after a change of shape (ordinal {k} -> {nk})")
+                new[nk] = fn.loops[k]
+            fn.loops = new
 
     def ex_While(self, s, p):
         spec, k = self.loop_spec(s, p)
